@@ -14,7 +14,10 @@ SCALAR_SYMS = ["s", "z2", "fw0"]
 INT_SYMS = ["i", "j", "iq", "ic"]
 ARRAYS = [("A", "SCALAR"), ("w", "SCALAR"), ("FE0_C0", "REAL"), ("coordinate_dofs", "REAL"), ("tab", "REAL")]
 MATH1 = ["sqrt", "abs", "cos", "sin", "tan", "acos", "asin", "atan", "cosh", "sinh", "tanh", "exp", "ln", "erf"]
-MATH2 = ["power", "atan_2", "min_value", "max_value"]
+MATH2 = ["power", "atan2", "min_value", "max_value"]  # "atan2" is the name ufl_to_lnodes produces ("atan_2" is a dead table key)
+MATH_COMPLEX = ["real", "imag", "conj"]  # complex scalar types only
+MATH_BESSEL = ["bessel_j", "bessel_y"]  # (integer order, argument)
+MATH1X = MATH1 + ["acosh", "asinh", "atanh"] + MATH_COMPLEX
 
 _EPS = 2.0**-52
 
@@ -93,9 +96,12 @@ def arith(draw, depth=3, allow_complex=True):
     if k in ("Sum", "Product"):
         return [k, [draw(sub) for _ in range(draw(st.integers(1, 4)))]]
     if k == "Math":
-        if draw(st.booleans()):
-            return ["Math", draw(st.sampled_from(MATH1)), [draw(sub)]]
-        return ["Math", draw(st.sampled_from(MATH2)), [draw(sub), draw(sub)]]
+        r = draw(st.integers(0, 9))
+        if r < 5:
+            return ["Math", draw(st.sampled_from(MATH1X)), [draw(sub)]]
+        if r < 9:
+            return ["Math", draw(st.sampled_from(MATH2)), [draw(sub), draw(sub)]]
+        return ["Math", draw(st.sampled_from(MATH_BESSEL)), [["LitI", draw(st.integers(0, 3))], draw(sub)]]
     if k == "Cond":
         return ["Cond", draw(condition(depth - 1, allow_complex)), draw(sub), draw(sub)]
     # a MultiIndex used as an operand of arithmetic (it is an LExpr)
